@@ -459,6 +459,13 @@ class Rewriter:
                 i += 2
                 self.R.fire('R1ns')
                 continue
+            if x.kind == 'op' and x.text == '::' and self.unit.get('strip_global_scope') \
+                    and (i == 0 or ((t[i - 1].kind != 'id' or t[i - 1].text in ('return', 'else', 'case', 'throw')) and t[i - 1].text != '>')) \
+                    and i + 1 < len(t) and t[i + 1].kind == 'id':
+                # opt-in (unit.json "strip_global_scope": true): global-scope qualifier `::name` -> `name` (libc / OpenSSL calls)
+                i += 1
+                self.R.fire('R1gs')
+                continue
             if x.kind == 'id' and x.text == 'nullptr':
                 out.append(Tok('id', 'NULL', x.line))
                 i += 1
@@ -1256,6 +1263,7 @@ def extract_constant(toks, name, cname, report, scope=None):
     txt = text_of(expr)
     txt = re.sub(r'std\s*::\s*', '', txt)
     txt = re.sub(r"(?<=\d)'(?=\d)", '', txt)
+    txt = re.sub(r'\bnumeric_limits\s*<\s*(\w+)\s*>\s*::\s*(\w+)\s*\(\s*\)', r'IORA_LIMIT_\1_\2', txt)    # as in p_qualifiers (R1)
     txt = re.sub(r'\b(?:static_cast|reinterpret_cast)\s*<([^>]*)>\s*\(', r'(\1)(', txt)
     txt = re.sub(r'\bchrono\s*::\s*(?:milli|micro|nano)?seconds\s*\(([^()]*)\)', r'(\1)', txt)
     txt = re.sub(r'\b(\w+)\s*::\s*(\w+)', r'\2', txt)
@@ -1440,7 +1448,10 @@ def ctor_init_assignments(toks, rp, lb, scope, name):
 def cut_block(body, spec, name):
     """R14: a statement range of a large function, delimited by anchor token texts"""
     first = lex(spec['first'])
-    last = lex(spec['last'])
+    # "$END": through the end of the function body; "$STMT": through the end of the statement the first anchor starts
+    # (a control header `while (..)` / `if (..)` + its braced body, or up to the next top-level ';')
+    last_kind = spec['last'] if spec['last'] in ('$END', '$STMT') else None
+    last = [] if last_kind else lex(spec['last'])
 
     def find(seq, start):
         hits = []
@@ -1455,10 +1466,23 @@ def cut_block(body, spec, name):
     if len(a) != 1 and 'first_ordinal' not in spec:
         raise ExtractionBreak(f"{name}: block start anchor ambiguous ({len(a)}): {spec['first']}")
     s = a[spec.get('first_ordinal', 0)]
-    b = find(last, s)
-    if not b:
-        raise ExtractionBreak(f"{name}: block end anchor not found: {spec['last']}")
-    e = b[spec.get('last_ordinal', 0)] + len(last)
+    if last_kind == '$END':
+        e = len(body)
+    elif last_kind == '$STMT':
+        j = s + len(first)
+        if j < len(body) and body[j].text == '{':
+            e = match_close(body, j) + 1
+        else:
+            while j < len(body) and body[j].text != ';':
+                j = match_close(body, j) + 1 if body[j].text in ('(', '[', '{') and body[j].kind not in ('str', 'chr') else j + 1
+            if j >= len(body):
+                raise ExtractionBreak(f"{name}: statement started by the block anchor has no end: {spec['first']}")
+            e = j + 1
+    else:
+        b = find(last, s)
+        if not b:
+            raise ExtractionBreak(f"{name}: block end anchor not found: {spec['last']}")
+        e = b[spec.get('last_ordinal', 0)] + len(last)
     out = body[s:e]
     if spec.get('append'):
         extra = lex(spec['append'])
